@@ -527,7 +527,7 @@ func (w *World) RunConcurrent(ops []*Op, pick func(step int, waiting []int) int,
 			case "upgrade":
 				a := action.NewUpgrade(cfg)
 				a.Namespace = "default"
-				a.Atomic, a.CleanupOnFail, a.DisableHooks = op.Atomic, op.CleanupOnFail, op.DisableHooks
+				a.Atomic, a.CleanupOnFail, a.DisableHooks, a.MaxHistory = op.Atomic, op.CleanupOnFail, op.DisableHooks, op.MaxHistory
 				a.WaitStrategy = kube.StatusWatcherStrategy
 				results[i].Rel, results[i].Err = a.Run(w.Name, op.buildChart(), map[string]interface{}{})
 			default:
